@@ -136,6 +136,7 @@ def run(ctx):
     c01s.run_scope(ctx, res, thorough)
     # kept calls executed several times in one evaluation (loops)
     c01s.run_loops(ctx, res, thorough)
+    c01s.run_result_types(ctx, res, thorough)
     # the code lives in IPython cells
     c01s.run_notebook(ctx, res, thorough)
     # the order in which the calls of an expression are analysed
